@@ -61,6 +61,32 @@ def run_one(s):
             rec["pts"].append(sets[j0]["pts"][i])
             rec["normals"].append([U.quant(x, 256) for x in n1] if n1.numel() == d_ else [])
         sets.append(rec)
+    # the same shape 256 times larger (lengths, positions and parameter values): normals do not depend on the size; the points
+    # are scaled back before they are judged against the denotation
+    KS = 256.0
+    rowS = rows_for(names, 1, tid + 2)[0] if names else {}
+    rec = {"kind": "scaled", "n": 12, "prm": {k: v * U.F for k, v in rowS.items()}, "exc": "", "nexc": "", "pts": [], "normals": [], "shape_ok": True}
+
+    def scaled():
+        bdS = U.build_scaled(e, KS).boundary
+        pS = Points(torch.tensor([[float(rowS[n_]) * KS for n_ in names]], dtype=torch.float32), U.mk_params(names, [rowS]).space) if names else Points.empty()
+        q = bdS.sample_grid(n=12, params=pS)
+        rp = Points(pS.as_tensor.repeat(len(q), 1), pS.space) if names else Points.empty()
+        return q, bdS.normal(q, rp)
+    r = watched(scaled, 8)
+    if r[0] != "ok":
+        rec["exc"] = r[1] if len(r) > 1 else "hang"
+    else:
+        q, nn = r[1]
+        m = len(q)
+        nn = torch.as_tensor(nn).detach().to(torch.float64)
+        d_ = sum(U.SPACES[v] for v in vs)
+        rec["shape_ok"] = list(nn.shape) == [m, d_]
+        co = q.coordinates
+        for i in range(m):
+            rec["pts"].append(U.q_of({v: [float(x) / KS for x in co[v][i]] for v in vs}, rowS))
+            rec["normals"].append([U.quant(x, 256) for x in nn.reshape(m, -1)[i]] if nn.numel() == m * d_ else [])
+    sets.append(rec)
     # one normal() call on a batch whose points belong to DIFFERENT parameter rows (every point with its own row)
     if names:
         ra = {n_: 0 for n_ in names}
